@@ -263,6 +263,7 @@ type sharedFacts struct {
 	viaFieldWrites  int // assignments to receiver fields inside ModifyRequest/ModifyResponse/hasLoop
 	viaPkgVarWrites int // assignments to package-level vars of via_modifier.go
 	reqOnlyPkgVars  int // package-level vars in forwarded_modifier.go and framing_modifier.go
+	boundaryBytes   int // length of the buffer randomBoundary fills from crypto/rand
 }
 
 func pkgVars(f *ast.File) []string {
@@ -296,6 +297,67 @@ func rootIdent(e ast.Expr) string {
 			return ""
 		}
 	}
+}
+
+// boundaryBytes: randomBoundary must fill one buffer `buf` with io.ReadFull(rand.Reader, buf[:] | buf)
+// and print it; the buffer is `var buf [N]byte` or `buf := make([]byte, L[, cap])`.  Returns N resp. L.
+func boundaryBytes(vf *ast.File) int {
+	var fn *ast.FuncDecl
+	for _, d := range vf.Decls {
+		if fd, ok := d.(*ast.FuncDecl); ok && fd.Name.Name == "randomBoundary" && fd.Recv == nil && fd.Body != nil {
+			fn = fd
+		}
+	}
+	if fn == nil {
+		die("via_modifier.go: func randomBoundary not found")
+	}
+	n, found, reads := 0, 0, 0
+	lit := func(e ast.Expr) int {
+		bl, ok := e.(*ast.BasicLit)
+		if !ok || bl.Kind != token.INT {
+			die("via_modifier.go: randomBoundary: buffer length is not an integer literal")
+		}
+		v, err := strconv.Atoi(bl.Value)
+		if err != nil {
+			die("via_modifier.go: randomBoundary: bad length %s", bl.Value)
+		}
+		return v
+	}
+	ast.Inspect(fn.Body, func(nd ast.Node) bool {
+		switch x := nd.(type) {
+		case *ast.ValueSpec:
+			if len(x.Names) == 1 && x.Names[0].Name == "buf" {
+				if at, ok := x.Type.(*ast.ArrayType); ok && at.Len != nil {
+					n, found = lit(at.Len), found+1
+				}
+			}
+		case *ast.AssignStmt:
+			if len(x.Lhs) == 1 && len(x.Rhs) == 1 {
+				if id, ok := x.Lhs[0].(*ast.Ident); ok && id.Name == "buf" {
+					ce, ok := x.Rhs[0].(*ast.CallExpr)
+					if !ok || selName(ce.Fun) != "make" || len(ce.Args) < 2 {
+						die("via_modifier.go: randomBoundary: buf is assigned something that is not make([]byte, n)")
+					}
+					n, found = lit(ce.Args[1]), found+1
+				}
+			}
+		case *ast.CallExpr:
+			if selName(x.Fun) == "io.ReadFull" && len(x.Args) == 2 && selName(x.Args[0]) == "rand.Reader" {
+				arg := x.Args[1]
+				if se, ok := arg.(*ast.SliceExpr); ok && se.Low == nil && se.High == nil {
+					arg = se.X
+				}
+				if id, ok := arg.(*ast.Ident); ok && id.Name == "buf" {
+					reads++
+				}
+			}
+		}
+		return true
+	})
+	if found != 1 || reads != 1 {
+		die("via_modifier.go: randomBoundary: expected one buffer `buf` filled by one io.ReadFull(rand.Reader, buf) (found %d buffers, %d reads)", found, reads)
+	}
+	return n
 }
 
 func shared(repo string) sharedFacts {
@@ -377,6 +439,7 @@ func shared(repo string) sharedFacts {
 			return true
 		})
 	}
+	sf.boundaryBytes = boundaryBytes(vf)
 	if methods != 3 {
 		die("via_modifier.go: expected ModifyRequest, ModifyResponse and hasLoop methods, found %d of them", methods)
 	}
@@ -435,6 +498,7 @@ func main() {
 	fmt.Fprintf(&c, "Definition via_receiver_field_writes_in_methods : nat := %d.\n", sf.viaFieldWrites)
 	fmt.Fprintf(&c, "Definition via_package_var_writes : nat := %d.\n", sf.viaPkgVarWrites)
 	fmt.Fprintf(&c, "Definition request_only_modifier_package_vars : nat := %d.\n\n", sf.reqOnlyPkgVars)
+	fmt.Fprintf(&c, "(* bytes randomBoundary draws from crypto/rand for the per-instance Via boundary *)\nDefinition boundary_random_bytes : nat := %d.\n\n", sf.boundaryBytes)
 	c.WriteString("Definition shared_state_free : bool :=\n  Nat.eqb hbh_modifier_fields 0 && Nat.eqb hbh_list_uses_other_than_the_range 0 &&\n  Nat.eqb hbh_other_package_vars 0 && Nat.eqb via_receiver_field_writes_in_methods 0 &&\n  Nat.eqb via_package_var_writes 0 && Nat.eqb request_only_modifier_package_vars 0.\n")
 	if err := os.WriteFile(filepath.Join(*out, "Gen_Shared.v"), []byte(c.String()), 0o644); err != nil {
 		die("%v", err)
